@@ -14,9 +14,12 @@ import (
 	"os"
 	"path/filepath"
 	"regexp"
+	"runtime/debug"
+	"runtime/pprof"
 	"sort"
 	"strings"
 	"sync"
+	"sync/atomic"
 	"time"
 
 	"golang.org/x/tools/go/packages"
@@ -37,6 +40,7 @@ type RunConfig struct {
 	MaxPaths        int
 	MaxConcretize   int
 	TimeoutMs       int
+	FeasTimeoutMs   int
 	OneShotMs       int
 	FallbackSolvers []SolverKind
 	PathTimeoutS    int
@@ -46,6 +50,7 @@ type RunConfig struct {
 	Samples         int
 	CrossCheck      bool
 	WallLimitS      int
+	DumpUnknown     string
 }
 
 type ViolationRec struct {
@@ -91,6 +96,7 @@ type RunResult struct {
 	Solver       string            `json:"solver"`
 	Regions      int               `json:"array_regions"`
 	Complete     bool              `json:"complete"`
+	BusyS        float64           `json:"worker_busy_s"`
 	Notes        []string          `json:"notes,omitempty"`
 	Extra        map[string]string `json:"extra,omitempty"`
 }
@@ -217,7 +223,7 @@ func newExec(prog *Program, cfg *RunConfig, push func(*WorkItem)) *Exec {
 	e := &Exec{
 		prog: prog, tc: NewTermCtx(), cfg: cfg,
 		layouts: map[types.Type]*layout{}, consts: map[*ssa.Const]Value{}, globals: map[*ssa.Global]*Obj{},
-		inited: map[*ssa.Package]bool{}, initDone: map[*ssa.Package]bool{}, initRunning: map[*ssa.Package]bool{}, funcs: map[string]int{}, intrUsed: map[string]int{},
+		inited: map[*ssa.Package]bool{}, initDone: map[*ssa.Package]bool{}, initRunning: map[*ssa.Package]bool{}, funcs: map[*ssa.Function]*int{}, intrUsed: map[string]int{},
 		pushWork: push,
 	}
 	e.solver = NewSolver(cfg.Solver, cfg.TimeoutMs)
@@ -250,6 +256,30 @@ func runHarness(cfg *RunConfig) (*RunResult, error) {
 	incon := map[string]bool{}
 	deadline := time.Now().Add(time.Duration(cfg.WallLimitS) * time.Second)
 
+	var stopFlag int32
+	go func() {
+		for {
+			time.Sleep(500 * time.Millisecond)
+			mu.Lock()
+			if cfg.Verbose || os.Getenv("GOSYM_PROGRESS") != "" {
+				fmt.Fprintf(os.Stderr, "[%.1fs] paths=%d queue=%d active=%d\n", time.Since(t0).Seconds(), res.Paths, len(queue), active)
+			}
+			if stop {
+				mu.Unlock()
+				atomic.StoreInt32(&stopFlag, 1)
+				return
+			}
+			if cfg.WallLimitS > 0 && time.Now().After(deadline) {
+				incon[fmt.Sprintf("wall-clock limit %d s reached", cfg.WallLimitS)] = true
+				stop = true
+				mu.Unlock()
+				atomic.StoreInt32(&stopFlag, 1)
+				cond.Broadcast()
+				return
+			}
+			mu.Unlock()
+		}
+	}()
 	var wg sync.WaitGroup
 	execs := make([]*Exec, cfg.Workers)
 	for w := 0; w < cfg.Workers; w++ {
@@ -273,13 +303,16 @@ func runHarness(cfg *RunConfig) (*RunResult, error) {
 				mu.Unlock()
 				if e == nil {
 					e = newExec(prog, cfg, push)
+					e.stopFlag = &stopFlag
 					if cfg.SMTLog != "" && w == 0 {
 						f, _ := os.Create(cfg.SMTLog)
 						e.solver.log = f
 					}
 					execs[w] = e
 				}
+				tp := time.Now()
 				pr := e.RunPath(item, h)
+				e.busy += time.Since(tp)
 				mu.Lock()
 				active--
 				res.Paths++
@@ -288,7 +321,7 @@ func runHarness(cfg *RunConfig) (*RunResult, error) {
 					res.Reach[r]++
 				}
 				switch pr.Status {
-				case "ok", "infeasible":
+				case "ok", "infeasible", "stopped":
 				case "violation", "blocked":
 					v := pr.Violation
 					if v == nil {
@@ -326,13 +359,16 @@ func runHarness(cfg *RunConfig) (*RunResult, error) {
 		}(w)
 	}
 	wg.Wait()
+	mu.Lock()
 	res.Complete = !stop
+	stop = true
+	mu.Unlock()
 	for _, e := range execs {
 		if e == nil {
 			continue
 		}
 		for k, v := range e.funcs {
-			res.Functions[k] += v
+			res.Functions[k.String()] += *v
 		}
 		for k, v := range e.intrUsed {
 			res.Intrinsics[k] += v
@@ -350,6 +386,7 @@ func runHarness(cfg *RunConfig) (*RunResult, error) {
 		res.Steps += e.stats.Steps
 		res.Regions += e.stats.Regions
 		res.Asserts += e.nAsserts
+		res.BusyS += e.busy.Seconds()
 		e.solver.Close()
 	}
 	keys := make([]string, 0, len(vio))
@@ -380,6 +417,7 @@ func classify(msg string) string {
 }
 
 func main() {
+	debug.SetGCPercent(400)
 	if len(os.Args) < 2 {
 		fmt.Fprintln(os.Stderr, "usage: gosym run|check|selftest ...")
 		os.Exit(2)
@@ -416,8 +454,8 @@ func (p paramFlags) Set(s string) error {
 func defaultConfig() *RunConfig {
 	return &RunConfig{
 		RepoDir: "/repo", VerifDir: "/verif", Params: map[string]int{}, Env: map[string]string{},
-		Workers: 16, Budget: 5_000_000, MaxPaths: 2_000_000, TimeoutMs: 10_000, OneShotMs: 60_000,
-		FallbackSolvers: []SolverKind{Z3, Z3New}, PathTimeoutS: 900, Solver: Z3, Samples: 5, WallLimitS: 3600,
+		Workers: 16, Budget: 5_000_000, MaxPaths: 2_000_000, TimeoutMs: 10_000, FeasTimeoutMs: 2_000, OneShotMs: 60_000,
+		FallbackSolvers: []SolverKind{Z3New, Z3}, PathTimeoutS: 900, Solver: Z3New, Samples: 5, WallLimitS: 3600,
 	}
 }
 
@@ -435,18 +473,29 @@ func cmdRun(args []string) {
 	fs.IntVar(&cfg.WallLimitS, "wall", cfg.WallLimitS, "wall-clock limit in seconds")
 	fs.BoolVar(&cfg.Verbose, "v", false, "")
 	fs.StringVar(&cfg.SMTLog, "smtlog", "", "")
+	fs.StringVar(&cfg.DumpUnknown, "dumpunknown", "", "file prefix for standalone dumps of queries answered unknown")
 	out := fs.String("out", "", "result file")
-	solver := fs.String("solver", "z3", "")
+	prof := fs.String("cpuprofile", "", "")
+	solver := fs.String("solver", "z3-new", "")
 	params := paramFlags(cfg.Params)
 	fs.Var(params, "param", "k=v harness parameter")
 	fs.Parse(args)
 	switch *solver {
+	case "z3":
+		cfg.Solver = Z3
 	case "z3-new":
 		cfg.Solver = Z3New
 	case "cvc5":
 		cfg.Solver = CVC5
 	}
+	if *prof != "" {
+		f, _ := os.Create(*prof)
+		pprof.StartCPUProfile(f)
+	}
 	res, err := runHarness(cfg)
+	if *prof != "" {
+		pprof.StopCPUProfile()
+	}
 	if err != nil {
 		fmt.Fprintln(os.Stderr, "error:", err)
 		os.Exit(2)
@@ -456,8 +505,8 @@ func cmdRun(args []string) {
 		os.WriteFile(*out, b, 0644)
 	}
 	// summary
-	fmt.Printf("harness %s/%s: paths=%d %v forks=%d steps=%d queries=%d (sat %d unsat %d unknown %d) solver=%.2fs wall=%.2fs\n",
-		res.Pkg, res.Harness, res.Paths, res.ByStatus, res.Forks, res.Steps, res.Queries, res.Sat, res.Unsat, res.Unknown, res.SolverS, res.WallS)
+	fmt.Printf("harness %s/%s: paths=%d %v forks=%d steps=%d queries=%d (sat %d unsat %d unknown %d) solver=%.2fs busy=%.2fs wall=%.2fs\n",
+		res.Pkg, res.Harness, res.Paths, res.ByStatus, res.Forks, res.Steps, res.Queries, res.Sat, res.Unsat, res.Unknown, res.SolverS, res.BusyS, res.WallS)
 	for _, v := range res.Violations {
 		fmt.Printf("  VIOLATION-CANDIDATE kind=%s label=%q msg=%q count=%d vec=%v\n    stack: %s\n", v.Kind, v.Label, v.Msg, v.Count, v.HasVec, v.Stack)
 	}
